@@ -138,3 +138,54 @@ Section R.
     apply radmsg2buf_id in R. exact R.
   Qed.
 End R.
+
+(* C04: what must have held for replyh to deliver anything *)
+Section A.
+  Variable md5 : bytes -> bytes.
+  Variable rx : N -> bytes -> option (list (Z * Z)).
+  Variable cfg : config.
+  Variable fs : N -> bool.
+
+  Definition reply_ma_required (sc : srvconf) (msg : radmsg) : bool :=
+    sc_reqma sc && ((sc_type sc =? Consts.RAD_UDP) || (sc_type sc =? Consts.RAD_TCP)) && reply_code (m_code msg) &&
+    (match gettype Consts.RAD_Attr_Message_Authenticator (m_attrs msg) with None => true | Some _ => false end).
+
+  Theorem replyh_accept_only_if st s buf now rnd c p :
+    In (OReply c p) (snd (replyh md5 rx cfg fs st s buf now rnd)) ->
+    exists h r msg,
+      slot_of st s (nth 1 buf 0) = Some h /\ get_rq st h = Some r /\
+      sl_tries (get_slot (get_server st s) (nth 1 buf 0)) <> 0 /\
+      buf2radmsg md5 buf (sc_secret (srvconf_of cfg s)) (match rq_msg r with Some m => Some (m_auth m) | None => None end) = Some msg /\
+      reply_codes (m_code msg) = true /\ m_mainvalid msg = false /\
+      reply_ma_required (srvconf_of cfg s) msg = false /\
+      (match rq_msg r with Some m => m_code m | None => 0 end) <> Consts.RAD_Status_Server.
+  Proof.
+    unfold replyh. cbv zeta.
+    set (st0 := set_server st s (set_lost (get_server st s) 0)).
+    assert (Hslot : sl_rq (get_slot (get_server st0 s) (nth 1 buf 0)) = slot_of st s (nth 1 buf 0)).
+    { change (slot_of st0 s (nth 1 buf 0) = slot_of st s (nth 1 buf 0)). subst st0.
+      apply (slot_of_set_server_same fs). reflexivity. }
+    assert (Htries : sl_tries (get_slot (get_server st0 s) (nth 1 buf 0)) = sl_tries (get_slot (get_server st s) (nth 1 buf 0))).
+    { subst st0. unfold get_server, set_server, upd, get_slot. cbn [st_servers]. rewrite nth_set_nth.
+      destruct (Nat.ltb_spec s (length (st_servers st))) as [L|L]; [reflexivity|].
+      rewrite (nth_overflow (st_servers st)) by exact L. reflexivity. }
+    rewrite Hslot, Htries. clear Hslot Htries.
+    assert (Hget : forall h, get_rq st0 h = get_rq st h) by reflexivity.
+    destruct (slot_of st s (nth 1 buf 0)) as [h|] eqn:Hs.
+    2:{ destruct (if fs 20 then None else _) as [msg|]; [|cbn; intuition discriminate].
+        destruct (negb _); cbn; intuition discriminate. }
+    rewrite Hget. destruct (get_rq st h) as [r|] eqn:Hr.
+    2:{ destruct (if fs 20 then None else _) as [msg|]; [|cbn; intuition discriminate].
+        destruct (negb _); cbn; intuition discriminate. }
+    destruct (fs 20); [cbn; intuition discriminate|].
+    destruct (buf2radmsg md5 buf _ _) as [msg|] eqn:Hp; [|cbn; intuition discriminate].
+    destruct (negb (reply_codes (m_code msg))) eqn:Hc; [cbn; intuition discriminate|].
+    destruct (sl_tries _ =? 0) eqn:Ht; [cbn; intuition discriminate|].
+    destruct (m_mainvalid msg) eqn:Hv; [cbn; intuition discriminate|].
+    match goal with |- context [if ?g then (_, [ORet 1]) else _] => destruct g eqn:Hma end; [cbn; intuition discriminate|].
+    destruct (_ =? Consts.RAD_Status_Server) eqn:Hst.
+    { match goal with |- context [if ?g then _ else _] => destruct g end; cbn; intuition discriminate. }
+    intros _. exists h, r, msg. split; [reflexivity|]. split; [exact Hr|]. split; [lia|]. split; [exact Hp|].
+    split; [apply negb_false_iff in Hc; exact Hc|]. split; [exact Hv|]. split; [exact Hma|]. lia.
+  Qed.
+End A.
